@@ -170,7 +170,7 @@ class Ctx:
 def exc_of(throw, ctx):
     ks = kids(throw)
     if not ks:
-        raise TranslatorError("%s: rethrow `throw;` is outside the subset" % ctx.method)
+        return "rethrow"
     t = qt(ks[0]).replace("class ", "").strip()
     return t
 
@@ -183,7 +183,10 @@ def expr_effects(node, ctx, out):
     if k == "CXXThrowExpr":
         for c in kids(node):
             expr_effects(c, ctx, out)
-        out.append(("throw", exc_of(node, ctx)))
+        t = exc_of(node, ctx)
+        if t == "rethrow":
+            raise TranslatorError("%s: rethrow `throw;` is outside the subset" % ctx.method)
+        out.append(("throw", t))
         return
     if k == "LambdaExpr":
         # a lambda that is only created (returned / stored): its body does not run here.  It must not hide effects.
@@ -334,6 +337,8 @@ def flat_effects(st):
         return flat_effects(st[2]) + flat_effects(st[3])
     if k in ("loop", "scope"):
         return flat_effects(st[1])
+    if k == "try":
+        return flat_effects(st[1]) + flat_effects(st[2])
     if k in ("skip", "ret"):
         return []
     return [st]
@@ -456,7 +461,21 @@ def stmt_of(node, ctx):
         return seq(pre + [chain])
     if k == "BreakStmt" or k == "ContinueStmt":
         return ("skip",)           # inside loops: the Loop node already covers 0..n executions of every prefix
-    if k in ("CXXTryStmt", "GotoStmt", "LabelStmt", "CXXCatchStmt"):
+    if k == "CXXTryStmt":
+        ks = kids(node)
+        body = stmt_of(ks[0], ctx)
+        handlers = []
+        for h in ks[1:]:
+            if h.get("kind") != "CXXCatchStmt":
+                raise TranslatorError("%s: unexpected %s in a try statement" % (ctx.method, h.get("kind")))
+            hb = [c for c in kids(h) if c.get("kind") == "CompoundStmt"]
+            handlers.append(stmt_of(hb[0], ctx) if hb else ("skip",))
+        # several handlers: any of them may run
+        hs = ("skip",)
+        for h in reversed(handlers):
+            hs = h if hs == ("skip",) and len(handlers) == 1 else ("if", "handler chosen", h, hs)
+        return ("try", body, hs)
+    if k in ("GotoStmt", "LabelStmt", "CXXCatchStmt"):
         raise TranslatorError("%s: %s is outside the subset" % (ctx.method, k))
     if k == "OMPParallelForDirective" or k.startswith("OMP"):
         return seq([stmt_of(c, ctx) for c in kids(node) if c.get("kind", "").endswith("Stmt")])
@@ -719,6 +738,8 @@ def stmt_term(st, ind):
         return "Loop (%s)" % stmt_term(st[1], ind + 2)
     if k == "scope":
         return "Scope (%s)" % stmt_term(st[1], ind + 2)
+    if k == "try":
+        return "Try\n%s  (%s)\n%s  (%s)" % (pad, stmt_term(st[1], ind + 2), pad, stmt_term(st[2], ind + 2))
     raise TranslatorError("internal: unknown stmt %r" % (st,))
 
 
